@@ -8,7 +8,7 @@ git apply --check patch$V.diff || { echo "RESULT $ID$V patch does not apply"; ex
 PYTHONPATH=$W timeout 900 /venv/bin/python demo$V.py > /tmp/scratchpad/confirm-$ID$V-clean.log 2>&1; c=$?
 git apply patch$V.diff
 PYTHONPATH=$W timeout 900 /venv/bin/python demo$V.py > /tmp/scratchpad/confirm-$ID$V-patched.log 2>&1; p=$?
-PYTHONPATH=$W timeout 2400 /venv/bin/python -m pytest -q -p no:cacheprovider --timeout=900 --junitxml=/tmp/scratchpad/confirm-$ID$V.xml > /tmp/scratchpad/confirm-$ID$V-suite.log 2>&1
+PYTHONPATH=$W timeout 2400 /venv/bin/python -m pytest -q -p no:cacheprovider --timeout=900 --ignore-glob='demo*.py' --ignore-glob='_probe*.py' --ignore-glob='scratch*' --ignore-glob='.scratch*' --junitxml=/tmp/scratchpad/confirm-$ID$V.xml > /tmp/scratchpad/confirm-$ID$V-suite.log 2>&1
 s=$(/venv/bin/python - <<PY
 import json, xml.etree.ElementTree as ET
 base=json.load(open('/root/.vp/BASELINE.json'))
